@@ -10,7 +10,7 @@ CONSTANTS
  Foreign = FALSE
  KindOf <- K_acf
  LoadOf <- L_acf
- Shutdowns = FALSE
+ Shutdowns = TRUE
  CancelAware = TRUE
  ClearInputs = TRUE
 INVARIANT Inv_C03
@@ -18,3 +18,5 @@ INVARIANT Inv_C07
 INVARIANT Inv_C08
 INVARIANT DeliveredAtHorizon
 INVARIANT NoWaitStuck
+INVARIANT ShutdownTerminates
+INVARIANT ShutdownCompletes
